@@ -34,4 +34,30 @@ PLANS = {
                        "stub": ["table sources (sim database, scripted and gated)", "sink (collecting)", "cobra command, config file, printers (not run)"]},
         "assumptions": ["reference nested-loop SQL join in /verif/sim/model.go", "testing/synctest quiescence (go1.26.8 runtime)"],
     },
+    "C15": {
+        "level": "exploration",
+        "technique": "deterministic simulation: seeded valid changelogs (and, for joins, seeded two-input schedules) fed to each real execution node; running-multiset monitor plus batch reference operator",
+        "level_text": ("seeded exploration of valid changelogs (inserts, retractions, duplicates, watermarks, zero and non-zero event times) through each real operator "
+                       "(filter, map, distinct, simple and custom-trigger group by with every trigger combination, lookup join, order by; stream/outer join under seeded interleavings); "
+                       "after every emitted record the output multiset must stay non-negative, at the end it must equal the reference operator on the consolidated input"),
+        "level_note": "trusted: reference operators in /verif/sim (filter/map/distinct/group-by/join/sort written independently), expression leaves are Go closures so no SQL function semantics is on trial",
+        "parts": [{"check": "c15", "quick": 80000, "thorough": 6000000}],
+        "rule": ("each run draws an operator, its configuration (trigger set, sort direction, lookup table) and a valid changelog; joins additionally draw the interleaving; "
+                 "non-trivial = at least 2 input messages; distinct = distinct (operator+config+script-shape hash, full script/schedule hash) pairs"),
+        "components": {"real": ["nodes.Filter/Map/Distinct/SimpleGroupBy/CustomTriggerGroupBy/LookupJoin/OrderSensitiveTransform/StreamJoin/OuterJoin/EventTimeBuffer", "execution triggers", "aggregates count/sum"],
+                       "stub": ["sources (scripted)", "sink (collecting)", "expression leaf functions (Go closures)"]},
+        "assumptions": ["reference operators in /verif/sim", "generated changelogs never retract an absent row and carry no late records"],
+    },
+    "C22": {
+        "level": "exploration",
+        "technique": "deterministic simulation: seeded valid watermarked changelogs through the real wrapper; consolidated-prefix oracle at every forwarded watermark, record-identity conservation monitor",
+        "level_text": ("seeded exploration of valid changelogs with watermarks (duplicates, retractions, out-of-order and zero event times) through the real "
+                       "InternallyConsistentOutputStreamWrapper; at every forwarded watermark W the emitted records must consolidate to the input with event time <= W, "
+                       "every emitted record must be one that was received (values, sign, event time; never more often), and everything must be out by end of stream"),
+        "level_note": "trusted: multiset consolidation model; input changelogs are valid (no retraction of an absent row) and carry no late records",
+        "parts": [{"check": "c22", "quick": 80000, "thorough": 6000000}],
+        "rule": "each run draws one changelog (<=8 steps quick, <=24 thorough, value domain 1-3 so duplicates and matching retractions are common); non-trivial = >=2 messages; distinct = distinct (shape, full script) pairs",
+        "components": {"real": ["stream.InternallyConsistentOutputStreamWrapper"], "stub": ["source (scripted)", "sink (collecting)"]},
+        "assumptions": ["multiset model in /verif/sim/model.go"],
+    },
 }
